@@ -502,3 +502,60 @@ def self_reaction_families(rng, n):
         rng.shuffle(fam)
         fams.append(fam)
     return [[(t, rx) for t, rx in f if oracle.balanced(rx)] for f in fams[:n]]
+
+
+def dative(rng, n):
+    """coordination compounds written with dative bonds ('->' / '<-' inside a molecule; '>' is also the
+    reaction separator character): ligands + metal (halide) -> complex; balanced, with one ligand missing on the
+    reactant side, and the reverse (complex among the reactants).  Returns (tag, reaction) with in-domain sides."""
+    metals = ["[Pt](Cl)(Cl)", "[Pd](Cl)(Cl)", "[Cu+2]", "[Zn+2]", "[Ni]", "[Au](Cl)", "[Co+3]", "[Fe+2]", "[Ag+]",
+              "[Pt](Br)(Br)", "[Rh](Cl)", "[Hg](Cl)(Cl)"]
+    ligs = ["N", "O", "CC#N", "CS(C)", "CP(C)(C)", "c1ccccn1", "CN", "CO", "OCC", "[C-]#[O+]"]
+    free = {"CS(C)": "CSC", "CP(C)(C)": "CP(C)C"}
+    out = []
+    tries = 0
+    while len(out) < n and tries < 30 * n:
+        tries += 1
+        m, l1, l2 = rng.choice(metals), rng.choice(ligs), rng.choice(ligs)
+        if l2 in ("[C-]#[O+]",):
+            l2 = "N"
+        first = l2 if l2 not in ("CS(C)", "CP(C)(C)", "c1ccccn1", "CC#N") else {"CS(C)": "S(C)C", "CP(C)(C)": "P(C)(C)C",
+                                                                               "c1ccccn1": "n1ccccc1", "CC#N": "N#CC"}[l2]
+        donor_last = l1 if l1 != "[C-]#[O+]" else "[O+]#[C-]"
+        cplx = "%s->%s<-%s" % (donor_last, m, first)
+        f1, f2 = free.get(l1, l1), free.get(l2, l2)
+        metal_free = m.replace("(", "").replace(")", "")
+        metal_free = {"[Pt]ClCl": "Cl[Pt]Cl", "[Pd]ClCl": "Cl[Pd]Cl", "[Au]Cl": "[Au]Cl", "[Pt]BrBr": "Br[Pt]Br",
+                      "[Rh]Cl": "[Rh]Cl", "[Hg]ClCl": "Cl[Hg]Cl"}.get(metal_free, metal_free)
+        k = rng.randrange(4)
+        if k == 0:
+            rx = "%s.%s.%s>>%s" % (f1, metal_free, f2, cplx)
+            tag = "dative_balanced"
+        elif k == 1:
+            rx = "%s.%s>>%s" % (f1, metal_free, cplx)
+            tag = "dative_ligand_missing"
+        elif k == 2:
+            rx = "%s>>%s.%s.%s" % (cplx, f2, f1, metal_free)
+            tag = "dative_reverse_balanced"
+        else:
+            rx = "%s.CCO>>%s.%s.CCO" % (cplx, f1, metal_free)
+            tag = "dative_reverse_ligand_missing"
+        if oracle.in_domain_rsmi(rx) and "->" in rx:
+            out.append(("%s|%d" % (tag, len(out)), rx))
+    return out
+
+
+def dot_closure_mcs(rng, n):
+    """unbalanced reactions that need the MCS stage and whose carbon-richer side contains, next to an ordinary
+    molecule, a molecule written with a ring-closure bond across a dot (THF as 'C1CCC2.O12', methanol as 'C1.O1'):
+    the side parses as a whole, its '.'-separated pieces do not"""
+    base = ["CC(=O)OCC>>CC(=O)O", "CC(=O)Cl.NCC>>CC(=O)NCC", "CS(=O)(=O)OCC>>CCO", "CC(=O)OC>>CC(=O)O",
+            "c1ccccc1C(=O)OC>>c1ccccc1C(=O)O", "CCOC(=O)CC>>CCC(=O)O", "CC(=O)NC>>CN", "CCN=C=O.NCC>>CCNC(=O)NCC"]
+    out = []
+    for i in range(n):
+        d, c = rng.choice(DOT_CLOSURES)
+        a, b = rng.choice(base).split(">>")
+        parts = a.split(".") + [d]
+        rng.shuffle(parts)
+        out.append(("dotmcs|%d" % i, "%s>>%s" % (".".join(parts), b)))
+    return [(t, s) for t, s in out if oracle.in_domain_rsmi(s)]
